@@ -48,7 +48,7 @@ def run_scenario(sc: dict[str, Any]) -> dict[str, Any]:
                 return None
             md = o.get('metadata', {}); ann = md.get('annotations', {}) or {}
             on = (md.get('labels', {}) or {}).get('on') == 'yes'
-            lh_raw = ann.get(f'{PREFIX}/last-handled-configuration')
+            lh_raw = ann.get(f'{PREFIX}/last-handled-configuration') or ann.get(f'{PREFIX}/last-handled-configuration-ofDRS')
             lh = 0
             if lh_raw is not None:
                 e = json.loads(lh_raw)
@@ -56,6 +56,8 @@ def run_scenario(sc: dict[str, Any]) -> dict[str, Any]:
             prog = {}
             for h in UNIVERSE:
                 raw = ann.get(f'{PREFIX}/{h}')
+                if raw is None:
+                    raw = ann.get(f'{PREFIX}/{h}-ofDRS')       # the key of a ReplicaSet owned by a Deployment (scenario flag `drs`)
                 if raw is None:
                     prog[h] = {'st': 'none', 'r': 0, 'pu': 'none', 'until': 0}
                 else:
@@ -69,7 +71,7 @@ def run_scenario(sc: dict[str, Any]) -> dict[str, Any]:
             return {'ess': ess_id(o.get('spec', {}).get('x'), on), 'lh': lh, 'prog': prog,
                     'fins': ['K' if f == FIN else f for f in md.get('finalizers', []) or []],
                     'deleting': md.get('deletionTimestamp') is not None,
-                    'dummy': f'{PREFIX}/touch-dummy' in ann, 'match': on or not use_label,
+                    'dummy': f'{PREFIX}/touch-dummy' in ann or f'{PREFIX}/touch-dummy-ofDRS' in ann, 'match': on or not use_label,
                     'rv': int(md['resourceVersion'])}
         sim.srv.projector = project
 
@@ -109,7 +111,12 @@ def run_scenario(sc: dict[str, Any]) -> dict[str, Any]:
         t0 = sc.get('t0', 1)
 
         def create():
-            sim.create('o1', {'x': init['x']}, labels={'on': 'yes' if init.get('on', True) else 'no'})
+            if sc.get('drs'):       # the handled objects are ReplicaSets owned by a Deployment: the progress keys are marked
+                sim.things.kind = 'ReplicaSet'
+                sim.srv.create(sim.things, 'ns', 'o1', {'spec': {'x': init['x']}, 'metadata': {
+                    'labels': {'on': 'yes' if init.get('on', True) else 'no'}, 'ownerReferences': [{'kind': 'Deployment', 'name': 'd'}]}})
+            else:
+                sim.create('o1', {'x': init['x']}, labels={'on': 'yes' if init.get('on', True) else 'no'})
 
         def do(op: str, *a: Any) -> None:
             o = state['op']
@@ -456,7 +463,8 @@ def gen_scenarios(seed: int, n: int, profile: str) -> list[dict[str, Any]]:
         sc = {'id': f'{profile}-{seed}-{i}', 'handlers': hs, 'order': list(hs), 'lifecycle': lifecycle,
               'ctimeout': rnd.choice([5, 5, 2, 3]) if profile == 'consistency' else 5,
               'init': {'x': 1, 'on': not (profile == 'stealth' and rnd.random() < 0.6)},
-              'env': env, 'end': t + 80, 'tail_from': t + 60, 'profile': profile}
+              'env': env, 'end': t + 80, 'tail_from': t + 60, 'profile': profile,
+              'drs': i % 6 == 5}        # every sixth history is about a ReplicaSet owned by a Deployment (marked progress keys)
         out.append(sc)
     return out
 
